@@ -51,7 +51,11 @@ func Generate(seed uint64, n int, tier, corpusDir string, shard int, out *kit.Ou
 		if i%4 == 3 {
 			backend = "bbolt"
 		}
-		c, err := runSeqX(markReuse(r, xHistory(r.Fork(), backend, i%3)))
+		xh := markReuse(r, xHistory(r.Fork(), backend, i%3))
+		if i%3 != 1 && i%9 < 3 { // a few of the two-handle histories take their handles by two overlapping calls (150 ms each on /repo)
+			xh.ConcurrentHandles = true
+		}
+		c, err := runSeqX(xh)
 		if err != nil {
 			return err
 		}
